@@ -10,3 +10,21 @@ class GoodDist(Distribution):
         if context is None:
             return torch.randn(num_samples, 2)
         return torch.randn(context.shape[0], num_samples, 2)
+
+
+class NoisyDist(Distribution):
+    def _sample(self, num_samples, context):
+        return context + torch.randn_like(context)
+
+
+class Mixture(Distribution):
+    def __init__(self):
+        super().__init__()
+        self.register_buffer("w", torch.tensor([0.3, 0.7]))
+        self.register_buffer("mu", torch.tensor([-1.0, 2.0]))
+
+    def sample_and_log_prob(self, num_samples, context=None):
+        z = torch.multinomial(self.w, num_samples, replacement=True)
+        x = self.mu[z] + torch.randn(num_samples)
+        log_prob = torch.logsumexp(torch.log(self.w) - 0.5 * (x[:, None] - self.mu) ** 2, dim=-1)
+        return x, log_prob
